@@ -33,6 +33,11 @@ func extractValidationConstraints(field *protogen.Field, schema *base.Schema) {
 		return
 	}
 
+	// ignore = IGNORE_ALWAYS switches every rule of the field off: nothing to publish
+	if fieldConstraints.GetIgnore() == validate.Ignore_IGNORE_ALWAYS {
+		return
+	}
+
 	// Apply constraints based on field type
 	switch field.Desc.Kind() {
 	case protoreflect.StringKind:
@@ -404,6 +409,11 @@ func checkIfFieldRequired(field *protogen.Field) bool {
 	// Type assert to FieldRules
 	fieldConstraints, ok := ext.(*validate.FieldRules)
 	if !ok || fieldConstraints == nil {
+		return false
+	}
+
+	// ignore = IGNORE_ALWAYS also switches the required rule off
+	if fieldConstraints.GetIgnore() == validate.Ignore_IGNORE_ALWAYS {
 		return false
 	}
 
